@@ -1,19 +1,24 @@
 (* C02 — Inter-pod constraints hold in the simulated end state.
    Property theorems only; each is closed by [exact] of a lemma from C02/Proofs.v.
 
-   Scope. The theorems are about the per-constraint machinery the scheduler relies on: the
-   TopologyGroup (topologygroup.go) and the admit / commit protocol Topology.AddRequirements /
-   Topology.Record run on it (topology.go), for ALL op sequences, i.e. for every queue order,
-   relaxation and re-queue (each of them only changes which admit / commit steps happen, in which
-   order). The global statement
-
-       forall cluster batch, interpod_ok (final world of Scheduler.Solve cluster batch)
-
-   is NOT proved: it additionally needs a model of the group set (hashing, owner registration after
-   relaxation), of the node-requirement narrowing in NodeClaim/ExistingNode.CanAdd and of the Solve
-   loop. It is checked instead on the real Solve by the oracle [interpod_ok_b] (Check.v, CaseS), whose
-   equivalence with the Prop specification is [interpod_oracle_reflects]. *)
-From KV Require Import Base.Req C02.Model C02.Spec C02.Proofs.
+   Scope. Two layers. (1) One TopologyGroup (topologygroup.go) under all op sequences. (2) The Topology
+   (topology.go, C02/Global.v): the set of forward and inverse groups, getMatchingTopologies, AddRequirements,
+   Record, Update after relaxation, Register(hostname), and ALL traces of admit / update / register steps
+   (any queue order, any relaxation, any re-queue: a failed attempt changes nothing but ownership). The
+   `*_global` theorems speak about the END state of such traces: the requirement each node carries for the
+   topology key, i.e. every domain the node could still end up in.
+   Modelling decisions of layer (2), all visible in Global.v: group identity is structural (position in an
+   append-only list) instead of TopologyGroup.Hash() — hash collisions are outside the theorems and are
+   watched by the harness; selects() and nodeFilter.Matches() are arbitrary fixed functions per group; the
+   node requirements seen by an admission are any refinement of the node's current ones; Get may return any
+   outcome [allowed_get] permits. Not modelled: the Solve loop's choice of node and pod (irrelevant for
+   safety: the theorems hold for every choice), resource fit, taints.
+   The remaining gap to `forall cluster batch, interpod_ok (world of Solve)` is the translation of a Kubernetes
+   world (labels, selectors, namespaces) into this abstract state: that tg_sel / tg_filter are the term's
+   selector and node filter and that NewTopology creates, for every required anti-affinity term, the forward
+   group and its inverse twin with the carriers as owners. It is checked on the real Solve by the oracle
+   [interpod_ok_b] (Check.v, CaseS), whose equivalence with the Prop specification is [interpod_oracle_reflects]. *)
+From KV Require Import Base.Req C02.Model C02.Spec C02.Proofs C02.Global.
 Open Scope Z_scope.
 
 (* emptyDomains is exactly the set of registered domains with count 0, after every sequence of
@@ -91,6 +96,104 @@ Theorem interpod_oracle_reflects : forall w, interpod_ok_b w = true <-> interpod
 Proof. exact interpod_ok_iff. Qed.
 Print Assumptions interpod_oracle_reflects.
 
+
+(* ======================= Topology level: end states of arbitrary traces ======================= *)
+
+(* Anti-affinity, general form. Pod p1 is committed and recorded into the anti-affinity group X (forward
+   group: X selects p1; inverse group: p1 owns X) after consulting some group on X's key; any number of steps
+   later p2 is admitted and consults X. In the END state no domain is possible for both nodes. *)
+Theorem anti_global : forall st0 pre p1 n1 pd1 nr1 chs1 mid p2 n2 pd2 nr2 chs2 post inv i X1,
+  gwf st0 ->
+  gtrace_ok st0 (pre ++ GAdmit p1 n1 pd1 nr1 chs1 :: mid ++ GAdmit p2 n2 pd2 nr2 chs2 :: post) ->
+  let st1 := grun st0 pre in
+  let st2 := grun (gapply st1 (GAdmit p1 n1 pd1 nr1 chs1)) mid in
+  group_at st1 inv i = Some X1 -> gtype (tg_g X1) = TAnti ->
+  recorded_into inv X1 p1 (final_reqs st1 p1 nr1 chs1) ->
+  (exists Y, List.In Y (consulted (s_topo st1) p1 nr1) /\ tg_key Y = tg_key X1) ->
+  (forall X2, group_at st2 inv i = Some X2 -> consults inv X2 p2 nr2) ->
+  let stf := grun st0 (pre ++ GAdmit p1 n1 pd1 nr1 chs1 :: mid ++ GAdmit p2 n2 pd2 nr2 chs2 :: post) in
+  forall v, has (get (s_nodes stf n1) (tg_key X1)) v = true -> has (get (s_nodes stf n2) (tg_key X1)) v = true -> False.
+Proof. exact anti_global_l. Qed.
+Print Assumptions anti_global.
+
+(* Both directions for one required anti-affinity term with forward group F and inverse twin I:
+   the carrier first, then a pod the term selects ... *)
+Theorem anti_global_owner_first : forall st0 pre p1 n1 pd1 nr1 chs1 mid p2 n2 pd2 nr2 chs2 post iF iI F I,
+  gwf st0 ->
+  gtrace_ok st0 (pre ++ GAdmit p1 n1 pd1 nr1 chs1 :: mid ++ GAdmit p2 n2 pd2 nr2 chs2 :: post) ->
+  let st1 := grun st0 pre in
+  group_at st1 false iF = Some F -> group_at st1 true iI = Some I -> twin F I ->
+  memn p1 (tg_owners F) = true -> memn p1 (tg_owners I) = true -> tg_sel F p2 = true ->
+  let stf := grun st0 (pre ++ GAdmit p1 n1 pd1 nr1 chs1 :: mid ++ GAdmit p2 n2 pd2 nr2 chs2 :: post) in
+  forall v, has (get (s_nodes stf n1) (tg_key F)) v = true -> has (get (s_nodes stf n2) (tg_key F)) v = true -> False.
+Proof. exact anti_owner_first_l. Qed.
+Print Assumptions anti_global_owner_first.
+
+(* ... and a selected pod first, then a carrier (still owner of F when it is admitted). *)
+Theorem anti_global_selected_first : forall st0 pre p1 n1 pd1 nr1 chs1 mid p2 n2 pd2 nr2 chs2 post iF iI F I,
+  gwf st0 ->
+  gtrace_ok st0 (pre ++ GAdmit p1 n1 pd1 nr1 chs1 :: mid ++ GAdmit p2 n2 pd2 nr2 chs2 :: post) ->
+  let st1 := grun st0 pre in
+  let st2 := grun (gapply st1 (GAdmit p1 n1 pd1 nr1 chs1)) mid in
+  group_at st1 false iF = Some F -> group_at st1 true iI = Some I -> twin F I ->
+  tg_sel F p1 = true ->
+  (forall F2, group_at st2 false iF = Some F2 -> memn p2 (tg_owners F2) = true) ->
+  let stf := grun st0 (pre ++ GAdmit p1 n1 pd1 nr1 chs1 :: mid ++ GAdmit p2 n2 pd2 nr2 chs2 :: post) in
+  forall v, has (get (s_nodes stf n1) (tg_key F)) v = true -> has (get (s_nodes stf n2) (tg_key F)) v = true -> False.
+Proof. exact anti_selected_first_l. Qed.
+Print Assumptions anti_global_selected_first.
+
+(* Spread: the END state satisfies count(d) - min <= maxSkew for the group of the last counted pod committed
+   into d when that pod is a self-selecting carrier ([quiet]: no later counted commit into d; later counted
+   commits go to known domains; Register only for hostname-mode groups). Groups created by Update in the
+   middle of a pass start from countDomains (bound pods only): the theorem then speaks about the carriers
+   admitted after the creation, which is all the code can know (see report: not covered = pods of the pass
+   committed before a group was created). *)
+Theorem spread_global : forall st0 pre p1 n1 pd1 nr1 chs1 post i G d,
+  gwf st0 ->
+  gtrace_ok st0 (pre ++ GAdmit p1 n1 pd1 nr1 chs1 :: post) ->
+  let st1 := grun st0 pre in
+  group_at st1 false i = Some G -> gtype (tg_g G) = TSpread ->
+  memn p1 (tg_owners G) = true -> tg_sel G p1 = true -> tg_filter G (final_reqs st1 p1 nr1 chs1) = true ->
+  vals (get (final_reqs st1 p1 nr1 chs1) (tg_key G)) = [d] ->
+  quiet (gapply st1 (GAdmit p1 n1 pd1 nr1 chs1)) post i d ->
+  exists Gf, group_at (grun st0 (pre ++ GAdmit p1 n1 pd1 nr1 chs1 :: post)) false i = Some Gf /\
+             bound_holds Gf d (get pd1 (tg_key G)).
+Proof. exact spread_global_l. Qed.
+Print Assumptions spread_global.
+
+(* Affinity: every domain the admitted pod's node may end up in held a bound match, or a selected pod of the
+   pass committed on a node collapsed to exactly that domain, or the pod selects itself and no such match is
+   known in any domain it can use. *)
+Theorem affinity_global : forall st0 pre p n pd nr chs i G0,
+  gwf st0 -> gtrace_ok st0 (pre ++ [GAdmit p n pd nr chs]) ->
+  group_at st0 false i = Some G0 -> gtype (tg_g G0) = TAffinity ->
+  (forall G, group_at (grun st0 pre) false i = Some G -> memn p (tg_owners G) = true) ->
+  forall v, has (get (final_reqs (grun st0 pre) p nr chs) (tg_key G0)) v = true ->
+    0 < cnt (gdom (tg_g G0)) v \/ commits_to st0 pre i v \/
+    (tg_sel G0 p = true /\
+     forall v', has (get pd (tg_key G0)) v' = true -> ~ 0 < cnt (gdom (tg_g G0)) v' /\ ~ commits_to st0 pre i v').
+Proof. exact affinity_global_l. Qed.
+Print Assumptions affinity_global.
+
+(* Full strength under the collapsed-match guard ... *)
+Theorem affinity_global_partial2 : forall st0 pre p n pd nr chs i G0,
+  gwf st0 -> gtrace_ok st0 (pre ++ [GAdmit p n pd nr chs]) ->
+  group_at st0 false i = Some G0 -> gtype (tg_g G0) = TAffinity ->
+  (forall G, group_at (grun st0 pre) false i = Some G -> memn p (tg_owners G) = true) ->
+  commits_collapsed st0 pre i ->
+  strong_affinity_at st0 pre p pd nr chs i G0.
+Proof. exact affinity_global_guarded_l. Qed.
+Print Assumptions affinity_global_partial2.
+
+(* ... and refuted without it, at the Topology level (same finding as [affinity_global_refuted]). *)
+Theorem affinity_topology_refuted :
+  gwf gw_state /\ gtrace_ok gw_state (gw_pre ++ [GAdmit 2 2 [] [] [(["c"%string], ["c"%string])]]) /\
+  group_at gw_state false 0 = Some gw_group /\
+  ~ strong_affinity_at gw_state gw_pre 2 [] [] [(["c"%string], ["c"%string])] 0 gw_group.
+Proof. exact affinity_topology_refuted_l. Qed.
+Print Assumptions affinity_topology_refuted.
+
 (* ---- non-vacuity ---- *)
 Open Scope string_scope.
 Definition zoneA : req := new_req In None ["a"].
@@ -117,3 +220,18 @@ Example affinity_trace_nonvacuous :
   allowed_affinity (new_group TAffinity false maxint32 None ["a"; "b"]) false anyd anyd ["a"] = false /\
   allowed_affinity (new_group TAffinity false maxint32 None ["a"; "b"]) true anyd anyd ["a"] = true.
 Proof. vm_compute. split; [split; [exact I | split; [split; reflexivity | exact I]] | split; reflexivity]. Qed.
+
+(* a valid Topology-level trace with a forward anti-affinity group and its inverse twin: carrier 1 goes to zone a,
+   the selected pod 2 is then confined to b / c *)
+Definition ex_F : tgroup := mkTG "zone" (new_group TAnti false maxint32 None ["a"; "b"; "c"]) (fun p => Nat.eqb p 2) (fun _ => true) [1%nat].
+Definition ex_I : tgroup := mkTG "zone" (new_group TAnti false maxint32 None ["a"; "b"; "c"]) (fun p => Nat.eqb p 2) (fun _ => true) [1%nat].
+Definition ex_st : gstate := mkS (mkT [ex_F] [ex_I]) (fun _ => []) [].
+Example anti_global_nonvacuous :
+  gwf ex_st /\ twin ex_F ex_I /\
+  gtrace_ok ex_st ([] ++ GAdmit 1 1 [] [("zone", new_req In None ["a"])] [(["a"], ["a"])]
+                      :: [] ++ GAdmit 2 2 [] [] [(["b"; "c"], ["b"; "c"])] :: []).
+Proof.
+  split; [split; simpl; (constructor; [apply Proofs.wf_new_group | constructor])|].
+  split; [repeat split|].
+  simpl. repeat split; try (intros k v H; exact H); repeat constructor; vm_compute; reflexivity.
+Qed.
